@@ -214,8 +214,8 @@ MUTANTS += [
          old="        x_arctan = jnp.arctanh(jnp.where(is_linear, 0, y))  # avoid nan grad at |y|=1\n",
          new="        x_arctan = jnp.arctanh(y)\n"),
     dict(id="c18_spline_derivative_unmasked_input", prop="C18", file=SP,
-         old="        x_pos, y_pos, derivatives = self.x_pos, self.y_pos, self.derivatives\n        in_bounds = jnp.logical_and(x >= self.interval[0], x <= self.interval[1])\n        x_robust = jnp.where(in_bounds, x, sum(self.interval) / 2)  # To avoid nans\n        k = jnp.searchsorted(x_pos, x_robust) - 1\n",
-         new="        x_pos, y_pos, derivatives = self.x_pos, self.y_pos, self.derivatives\n        in_bounds = jnp.logical_and(x >= self.interval[0], x <= self.interval[1])\n        x_robust = x\n        k = jnp.searchsorted(x_pos, x_robust) - 1\n"),
+         old="        x_robust = jnp.where(in_bounds, x, sum(self.interval) / 2)  # To avoid nans\n        k = jnp.maximum(jnp.searchsorted(x_pos, x_robust) - 1, 0)\n",
+         new="        x_robust = x\n        k = jnp.maximum(jnp.searchsorted(x_pos, x_robust) - 1, 0)\n"),
     dict(id="c18_leaky_tanh_logdet_sqrt", prop="C18", file=TH,
          old="        log_grads = jnp.where(\n            jnp.abs(y) >= jnp.tanh(self.max_val),\n            jnp.log(self.linear_grad),\n            _tanh_log_grad(x),\n        )\n        return x, -jnp.sum(log_grads)\n",
          new="        log_grads = jnp.where(\n            jnp.abs(y) >= jnp.tanh(self.max_val),\n            jnp.log(self.linear_grad),\n            jnp.log1p(-(y**2)),\n        )\n        return x, -jnp.sum(log_grads)\n"),
@@ -228,4 +228,9 @@ MUTANTS += [
     dict(id="c09_coupling_conditioner_ignores_condition", prop="C09", file=CO,
          old="    def transform(self, x, condition=None):\n        x_cond, x_trans = x[: self.untransformed_dim], x[self.untransformed_dim :]\n        nn_input = x_cond if condition is None else jnp.hstack((x_cond, condition))\n",
          new="    def transform(self, x, condition=None):\n        x_cond, x_trans = x[: self.untransformed_dim], x[self.untransformed_dim :]\n        nn_input = x_cond if condition is None else jnp.hstack((x_cond, 0 * condition))\n"),
+    # rare: the NaN needs an exact left-end input AND a float32 coincidence in the degenerate quadratic;
+    # the original defect was found by the multi-seed soak in 1 of 36 quick runs
+    dict(id="c18_revert_F6_bin_minus_one", prop="C18", file=SP, rare=True,
+         old="        k = jnp.maximum(jnp.searchsorted(y_pos, y_robust) - 1, 0)  # left end -> bin 0\n",
+         new="        k = jnp.searchsorted(y_pos, y_robust) - 1\n"),
 ]
